@@ -171,8 +171,26 @@ func IsCallTo(instr ssa.Instruction, names ...string) (*ssa.CallCommon, bool) {
 			return ci.Common(), true
 		}
 	}
+	// a call through an interface of the module that exactly one module type implements is a call of
+	// that type's method: it is presented in the static shape (receiver first among the arguments)
+	if cc := ci.Common(); cc.IsInvoke() && CurrentProg != nil {
+		if named, ok := cc.Value.Type().(*types.Named); ok && named.Obj().Pkg() != nil && strings.HasPrefix(named.Obj().Pkg().Path(), ModulePath) {
+			if impls := CurrentProg.Callees(cc); len(impls) == 1 {
+				in := strings.ReplaceAll(impls[0].String(), ModulePath+"/", "")
+				for _, want := range names {
+					if in == want {
+						return &ssa.CallCommon{Value: impls[0], Args: append([]ssa.Value{cc.Value}, cc.Args...)}, true
+					}
+				}
+			}
+		}
+	}
 	return nil, false
 }
+
+// CurrentProg is the program being analysed (set by Load); IsCallTo uses it to
+// resolve calls through single-implementation interfaces of the module.
+var CurrentProg *Prog
 
 // ShortCallee is CalleeName without the module prefix.
 func ShortCallee(c *ssa.CallCommon) string {
